@@ -204,3 +204,26 @@ package signappx
 //@   on call (*AppxDigest).addZipEntry(_, _, _) ret (e): added = (e == nil)
 //@   before call invoke hash.Hash.Write(_, p): assert @the_digest_in_the_signature_is_over_the_bytes_that_are_stored sameslice(p, ctG)
 //@   loop 0 sig "for _, f := range i.outz.File" invariant !added && ctG == nil && i.contentTypes != nil && i.contentTypes.ByExt != nil && i.contentTypes.ByOverride != nil && i.contentTypes == old(i.contentTypes)
+//@
+//@ extern authenticode.NewCatalog(h)
+//@   neutral
+//@   fresh ret0
+//@   ensures ret0 != nil
+//@
+//@ func (*AppxDigest).writeCodeIntegrity
+//@   property C05
+//@   standalone
+//@   requires 1 <= i.Hash && i.Hash <= 19 && forall(k, 0, len(i.peDigests), i.peDigests[k] != nil)
+//@   ghost added int = 0
+//@   ghost tsG *pkcs9.TimestampedSignature = nil
+//@   ghost rawG []byte = nil
+//@   ghost stored bool = false
+//@   on call (*authenticode.Catalog).Add(_, _) ret (e): added = added + ite(e == nil, 1, 0)
+//@   loop 0 sig "for _, d := range i.peDigests" invariant -1 <= rangeindex && added == rangeindex + 1 && tsG == nil && !stored && cat != nil
+//@   before call (*authenticode.Catalog).Sign(c, _, ce, p): assert @catalog_lists_every_executable_and_is_signed_with_the_callers_certificate c == cat && added == old(len(i.peDigests)) && ce == cert && p == params
+//@   on call (*authenticode.Catalog).Sign(_, _, _, _) ret (t, e): tsG = ite(e == nil, t, nil); rawG = t.Raw
+//@   before call (*AppxDigest).addZipEntry(x, name, blob): assert @the_signed_catalog_becomes_the_member x == i && name == appxCodeIntegrity && tsG != nil && sameslice(blob, rawG)
+//@   on call (*AppxDigest).addZipEntry(_, _, _) ret (e): stored = (e == nil)
+//@   before call invoke hash.Hash.Write(_, p): assert @the_digest_in_the_signature_is_over_the_bytes_that_are_stored tsG != nil && sameslice(p, rawG)
+//@   ensures @no_catalog_without_executables old(len(i.peDigests)) == 0 ==> ret0 == nil && ret1 == nil
+//@   ensures @catalog_signature_returned_only_after_it_was_stored ret1 == nil && old(len(i.peDigests)) != 0 ==> ret0 == tsG && stored
